@@ -2,6 +2,12 @@
 // ParserKeyword is consulted (INCLUDE, PATHS, ENDINC, END, unknown names): a result, or an exception derived from std::exception - never
 // std::terminate, an out-of-bounds access or a foreign exception type.
 #include "/repo/opm/input/eclipse/Parser/Parser.cpp"
+#include <opm/input/eclipse/Parser/ParserKeywords/I.hpp>
+#include <opm/input/eclipse/Parser/ParserKeywords/P.hpp>
+#include <opm/input/eclipse/Parser/ParserKeywords/E.hpp>
+#include <opm/input/eclipse/Parser/ParserKeywords/D.hpp>
+#include <opm/input/eclipse/Parser/ParserKeywords/T.hpp>
+#include <opm/input/eclipse/Parser/InputErrorAction.hpp>
 #include <verif.h>
 #ifndef HN
 #define HN 3
@@ -9,20 +15,43 @@
 #ifndef KWID
 #define KWID 0
 #endif
+// KWID: 0 INCLUDE record, 1 PATHS records, 2 arbitrary bytes as the FIRST (keyword) line, 3 DIMENS record (three integers), 4 TITLE line
 #if KWID == 0
-#define KW "INCLUDE"
+#define PREFIX "INCLUDE\n"
+#define SUFFIX "\n"
+#elif KWID == 1
+#define PREFIX "PATHS\n"
+#define SUFFIX "\n/\n"          /* PATHS is a list of records: the closing slash line lets a record built from the bytes be processed */
+#elif KWID == 2
+#define PREFIX ""
+#define SUFFIX "\n/\n"
+#elif KWID == 3
+#define PREFIX "DIMENS\n"
+#define SUFFIX "\n"
 #else
-#define KW "PATHS"
+#define PREFIX "TITLE\n"
+#define SUFFIX "\nEND\n"
 #endif
 extern "C" void h_parse_builtin(void) {
-    std::string text = KW "\n";
+    std::string text = PREFIX;
     unsigned long n = nondet_ulong(); ASSUME(n <= HN); n = verif_concretize(n, HN);
     for (unsigned long i = 0; i < n; ++i) text.push_back((char) nondet_uchar());
-    text += "\n";
+    text += SUFFIX;
     Opm::Parser parser(false);
+    parser.addKeyword<Opm::ParserKeywords::INCLUDE>(); parser.addKeyword<Opm::ParserKeywords::PATHS>(); parser.addKeyword<Opm::ParserKeywords::DIMENS>(); parser.addKeyword<Opm::ParserKeywords::TITLE>();
+    parser.addKeyword<Opm::ParserKeywords::END>(); parser.addKeyword<Opm::ParserKeywords::ENDINC>();      // the real (generated) keyword definitions
     Opm::ParseContext ctx; Opm::ErrorGuard errors;
+    ctx.update(Opm::InputErrorAction::THROW_EXCEPTION);               // every recoverable error throws (the default context maps PARSE_MISSING_INCLUDE to EXIT1 = std::exit(1), a policy, not a crash)
     bool ok = false;
-    try { auto deck = parser.parseString(text, ctx, errors); ok = true; CHECK(deck.size() <= 1); } catch (const std::exception&) { ok = true; }
+    try { auto deck = parser.parseString(text, ctx, errors); ok = true;
+#if KWID == 1
+        CHECK(deck.size() == 0);                                      // PATHS only feeds the alias table, it never becomes a deck keyword (INCLUDE: no file exists, so no deck is ever returned)
+#elif KWID == 3 || KWID == 4
+        CHECK(deck.size() <= 1);
+#elif KWID == 2
+        CHECK(deck.size() <= 2);
+#endif
+    } catch (const std::exception&) { ok = true; }
     CHECK(ok);
     errors.clear();
 }
